@@ -77,3 +77,62 @@ func readTlvStream(
 		}
 	}
 }
+
+// readTlvDatagrams receives datagrams from reader and hands every TLV block found
+// in a datagram to onFrame.
+//
+// A datagram socket keeps the frame boundaries, so nothing is carried over from one
+// datagram to the next: a datagram that ends in the middle of a TLV block, announces
+// a block larger than itself or is larger than the maximum packet size is dropped on
+// its own. It is not an error of the socket and does not affect the datagrams after it.
+func readTlvDatagrams(
+	reader io.Reader,
+	onFrame func([]byte),
+	ignoreError func(error) bool,
+) error {
+	// One byte more than the maximum packet size, so that a larger datagram is
+	// recognized instead of being silently cut down to a valid size
+	recvBuf := make([]byte, defn.MaxNDNPacketSize+1)
+
+	for {
+		readSize, err := reader.Read(recvBuf)
+		if err != nil {
+			if ignoreError != nil && ignoreError(err) {
+				continue
+			}
+			if errors.Is(err, io.EOF) {
+				return nil
+			}
+			return err
+		}
+
+		if readSize > defn.MaxNDNPacketSize {
+			// Cannot be a valid packet
+			continue
+		}
+
+		datagram := recvBuf[:readSize]
+		for len(datagram) > 0 {
+			rdr := enc.NewBufferReader(datagram)
+
+			if _, err := enc.ReadTLNum(rdr); err != nil {
+				// Malformed, drop the rest of the datagram
+				break
+			}
+
+			tlvLen, err := enc.ReadTLNum(rdr)
+			if err != nil {
+				break
+			}
+
+			if tlvLen > enc.TLNum(len(datagram)-rdr.Pos()) {
+				// The block does not fit into the datagram that carries it
+				break
+			}
+
+			tlvSize := rdr.Pos() + int(tlvLen)
+			onFrame(datagram[:tlvSize])
+			datagram = datagram[tlvSize:]
+		}
+	}
+}
